@@ -818,6 +818,8 @@ impl TypeLayout {
             // an optional or an alias compares like the type it stands for
             TypeLayout::Optional(Some(x)) => x.supports_equ(),
             TypeLayout::Alias(_, x) => x.supports_equ(),
+            // lists compare element by element, and the interpreter has no comparison of maps
+            TypeLayout::List(..) => !me.contains_map(),
             _ => true,
         }
     }
